@@ -55,6 +55,18 @@ func (p Producer) err() error {
 	return ErrInjected
 }
 
+// Excluded reports whether a generator element is switched off through VERIF_GEN_EXCLUDE (a comma-
+// separated list). Only tools/seedeval.py sets it, when it judges a seeded change on a tree from which
+// a later fix was reverted: the element that exposes the repaired defect must not raise the alarm.
+func Excluded(element string) bool {
+	for _, e := range strings.Split(os.Getenv("VERIF_GEN_EXCLUDE"), ",") {
+		if e == element {
+			return true
+		}
+	}
+	return false
+}
+
 // FaultFlavour varies a producer fault that a generator has just placed on leaf idx (parts first,
 // then embeds, then attachments): the error value, and for files one time in three the fault moves
 // into the caller's io.ReadSeeker behind the library's own AttachReadSeeker/EmbedReadSeeker producer
@@ -750,9 +762,18 @@ func Program(t *rapid.T, o GenOpts) *MsgSpec {
 		}
 		spec.Parts = append(spec.Parts, p)
 	}
-	srcs := o.Sources
+	srcs := append([]string{}, o.Sources...)
 	if len(srcs) == 0 {
 		srcs = []string{"reader", "readseeker", "file", "iofs", "texttpl", "htmltpl", "writer", "reader-pos", "reader-drain", "buffer-reuse"}
+	}
+	if os.Getenv("VERIF_GEN_EXCLUDE") != "" {
+		kept := srcs[:0]
+		for _, s := range srcs {
+			if !Excluded(s) {
+				kept = append(kept, s)
+			}
+		}
+		srcs = kept
 	}
 	file := func(label string) FileSpec {
 		f := FileSpec{}
